@@ -9,17 +9,17 @@ import (
 	"math/big"
 	"time"
 
+	compact_time "github.com/kstenerud/go-compact-time"
 	"github.com/kstenerud/go-concise-encoding/ce"
 	"github.com/kstenerud/go-concise-encoding/configuration"
-	compact_time "github.com/kstenerud/go-compact-time"
 )
 
 func init() { checks["C29"] = checkC29 }
 
 type faultPlan struct {
-	N         int   `json:"n"`
-	At        []int `json:"at"`
-	Permanent bool  `json:"permanent"`
+	N         int    `json:"n"`
+	At        []int  `json:"at"`
+	Permanent bool   `json:"permanent"`
 	How       string `json:"how"`
 }
 
